@@ -563,16 +563,16 @@ although nothing was ever set on scenario 1 (and the base model reads 7 as well)
 theorem C06_witness_shared_points (c : Cfg) (hc : c.cloneOwnsPoints = false) : ¬ C06_full c := by
   intro h
   have h1 := (h witnessBase witnessOps).1 1
-  obtain ⟨p, e, m, rr⟩ := c
+  obtain ⟨p, e, m, rr, sa⟩ := c
   simp only at hc; subst hc
   revert h1
-  cases e <;> cases m <;> cases rr <;> decide
+  cases e <;> cases m <;> cases rr <;> cases sa <;> decide
 
 theorem C06_witness_base (c : Cfg) (hc : c.cloneOwnsPoints = false) :
     baseView witnessBase (exec c witnessBase witnessOps) ≠ baseAlone witnessBase witnessOps := by
-  obtain ⟨p, e, m, rr⟩ := c
+  obtain ⟨p, e, m, rr, sa⟩ := c
   simp only at hc; subst hc
-  cases e <;> cases m <;> cases rr <;> decide
+  cases e <;> cases m <;> cases rr <;> cases sa <;> decide
 
 /-- register a manager WITH base constants, add scenarios 0 and 1 without own constants, re-parameterise
 scenario 0 (session / REST settings), run scenario 1. -/
@@ -589,18 +589,18 @@ def witnessLateOps : List Op :=
 theorem C06_witness_shared_base_dict (c : Cfg) (hm : c.mergeOwnsDict = false) : ¬ C06_full c := by
   intro h
   have h1 := (h witnessBase witnessMergeOps).1 1
-  obtain ⟨p, e, m, rr⟩ := c
+  obtain ⟨p, e, m, rr, sa⟩ := c
   simp only at hm; subst hm
   revert h1
-  cases p <;> cases e <;> cases rr <;> decide
+  cases p <;> cases e <;> cases rr <;> cases sa <;> decide
 
 /-- the same mechanism reaches scenarios registered later: their merge reads the manager's (rewritten) base
 dictionaries, constants and points alike. -/
 theorem C06_witness_late_registration (c : Cfg) (hm : c.mergeOwnsDict = false) :
     view (exec c witnessBase witnessLateOps) 1 ≠ (soloExec witnessBase 1 (witnessLateOps.filter (relevant 1))).s := by
-  obtain ⟨p, e, m, rr⟩ := c
+  obtain ⟨p, e, m, rr, sa⟩ := c
   simp only at hm; subst hm
-  cases p <;> cases e <;> cases rr <;> decide
+  cases p <;> cases e <;> cases rr <;> cases sa <;> decide
 
 /-- register scenario 0 WITH an own constant and own points, run it, register the same name again WITHOUT them, run. -/
 def witnessReregOps : List Op :=
@@ -612,10 +612,10 @@ graphical function 0 ↦ 7 and stop time 9): the previous clone was handed over 
 theorem C06_witness_reused_clone (c : Cfg) (h : c.reregFreshClone = false) : ¬ C06_full c := by
   intro hf
   have h1 := (hf witnessBase witnessReregOps).1 0
-  obtain ⟨p, e, m, rr⟩ := c
+  obtain ⟨p, e, m, rr, sa⟩ := c
   simp only at h; subst h
   revert h1
-  cases p <;> cases e <;> cases m <;> decide
+  cases p <;> cases e <;> cases m <;> cases sa <;> decide
 
 /-- Re-registration under the same name is an operation of the theorem: with the good facts the view of a slot
 after `add i …` twice (with anything in between) is that of the LAST registration alone on a freshly built model —
@@ -626,6 +626,46 @@ theorem C06_reregistration (c : Cfg) (hc : c.cloneOwnsPoints = true) (hmo : c.me
     view (exec c b (pre ++ [Op.add i m d] ++ mid ++ [Op.add i m' d'] ++ post)) i =
     (soloExec b i ((pre ++ [Op.add i m d] ++ mid ++ [Op.add i m' d'] ++ post).filter (relevant i))).s :=
   (C06_full_of_good c hc hmo hrr b _).1 i
+
+/-! ### Calls: sessions address (manager, scenario) pairs -/
+
+/-- C06 over API calls: a history of calls (plain operations and `begin_session` over several managers with settings per
+(manager, scenario)) is executed as the code lowers it; every slot must look like the scenario alone after what the calls
+ADDRESS to it (`intent`), the base model as if nothing had been registered. -/
+def C06_calls (c : Cfg) : Prop :=
+  ∀ (b : Base) (calls : List Call),
+    (∀ i, view (exec c b (calls.flatMap (lower c))) i = (soloExec b i ((calls.flatMap intent).filter (relevant i))).s) ∧
+    baseView b (exec c b (calls.flatMap (lower c))) = baseAlone b (calls.flatMap intent)
+
+theorem lower_eq_intent (c : Cfg) (hs : c.sessionAddressesPair = true) (x : Call) : lower c x = intent x := by
+  cases x <;> simp [lower, intent, hs]
+
+theorem C06_calls_of_good (c : Cfg) (hc : c.cloneOwnsPoints = true) (hmo : c.mergeOwnsDict = true)
+    (hrr : c.reregFreshClone = true) (hs : c.sessionAddressesPair = true) : C06_calls c := by
+  intro b calls
+  have : calls.flatMap (lower c) = calls.flatMap intent := by
+    induction calls with
+    | nil => rfl
+    | cons x rest ih => simp only [List.flatMap_cons, ih, lower_eq_intent c hs]
+  rw [this]
+  exact C06_full_of_good c hc hmo hrr b _
+
+/-- two managers that each own a scenario of the same name (slots 0 and 3, three names per manager); ONE session over
+both, settings given under the first manager only; then the other manager's scenario runs. -/
+def witnessSessionCalls : List Call :=
+  [.op (.regMgr 0 [] []), .op (.regMgr 1 [] []), .op (.add 0 0 noDict), .op (.add 3 1 noDict),
+   .session 3 [0, 3] [(0, { noDict with consts := [(5, 51)] })], .op (.run 3)]
+
+/-- Negation witness for name-only addressing of session settings (`sessionAddressesPair = false`), whatever the other
+facts are: the scenario of the OTHER manager with the same name is configured with constant 5 ↦ 51 and runs with it;
+the setting is stored in the scenario object, so it outlives the session. -/
+theorem C06_witness_session_by_name (c : Cfg) (h : c.sessionAddressesPair = false) : ¬ C06_calls c := by
+  intro hf
+  have h1 := (hf witnessBase witnessSessionCalls).1 3
+  obtain ⟨p, e, m, rr, sa⟩ := c
+  simp only at h; subst h
+  revert h1
+  cases p <;> cases e <;> cases m <;> cases rr <;> decide
 
 /-! ### Wave 2 — what holds under the defective mechanisms
 
@@ -1181,7 +1221,7 @@ theorem C06_partial_nobase (c : Cfg) (hc : c.cloneOwnsPoints = true) (hrr : c.re
 /-- Non-vacuity: on a history using every operation kind, two managers with base constants / base
 points, three scenarios, the shared machine's view of slot 1 is a concrete non-trivial state. -/
 example :
-    (view (exec ⟨true, false, true, true⟩ witnessBase
+    (view (exec ⟨true, false, true, true, true⟩ witnessBase
       [.regMgr 0 [(5, 50)] [(1, 11)], .regMgr 1 [] [], .add 0 0 noDict, .add 1 0 { noDict with consts := [(5, 51)], stop := some 8 },
        .add 2 1 noDict, .run 0, .configure 1 { noDict with pts := [(0, 3)] }, .reset 1, .step 1 { noDict with consts := [(6, 60)] } 2,
        .step 0 { noDict with pts := [(0, 7)] } 2, .evalBase, .run 2]) 1).map (fun s => (s.meqs, s.mpts, s.mrs.stop, s.memo.length))
@@ -1191,14 +1231,14 @@ example :
 table on which slot 1 is a concrete non-trivial state (its own base constant, the base model's table). -/
 example :
     (∀ op ∈ witnessMergeOps, ptsFree op = true) ∧
-    (view (exec ⟨false, false, true, true⟩ witnessBase witnessMergeOps) 1).map (fun s => (s.consts, s.meqs, s.mpts, s.memo.length))
+    (view (exec ⟨false, false, true, true, true⟩ witnessBase witnessMergeOps) 1).map (fun s => (s.consts, s.meqs, s.mpts, s.memo.length))
       = some ([(5, 50)], [(5, 50)], [(0, 1)], 1) := by decide
 
 /-- Non-vacuity for file-loaded managers: registration followed by `setup` (the scenario's constants and points are in
 the model before any run), two scenarios of one manager with base constants / base points; slot 1 is untouched by
 slot 0's set-up and run. -/
 example :
-    (view (exec ⟨true, false, true, true⟩ witnessBase
+    (view (exec ⟨true, false, true, true, true⟩ witnessBase
       [.regMgr 0 [(5, 50)] [(1, 11)], .add 0 0 { noDict with consts := [(5, 51)] }, .setup 0, .add 1 0 noDict, .setup 1, .run 0]) 1).map
         (fun s => (s.consts, s.meqs, s.mpts, s.memo.length))
       = some ([(5, 50)], [(5, 50)], [(0, 1), (1, 11)], 0) := by decide
@@ -1212,6 +1252,8 @@ example :
 #print axioms C06_witness_late_registration
 #print axioms C06_witness_reused_clone
 #print axioms C06_reregistration
+#print axioms C06_calls_of_good
+#print axioms C06_witness_session_by_name
 #print axioms C06_partial_consts
 #print axioms C06_partial_nopoints
 #print axioms C06_partial_nobase
